@@ -34,6 +34,7 @@ class Verdict:
         self.manifests = {}           # mpath -> entries (reference tuples)
         self.entries = {}             # fullpath -> merged (tags, size, cks dict)
         self.ignores = set()
+        self.multi = {}               # fullpath -> number of file entries when > 1
 
     def __repr__(self):
         return (f'Verdict({self.kind}, offenders={self.offenders}, soft={self.soft}, '
@@ -163,6 +164,8 @@ def collect(v, path):
                 v.dc.append('IGNORE and file entry for one path')
             v.ignores.add(full)
             continue
+        if len(lst) > 1:
+            v.multi[full] = len(lst)
         size = lst[0][0][2]
         cks = {}
         conflict = False
